@@ -1,6 +1,7 @@
 import PyYetiVerif.Props.C10
 import PyYetiVerif.Lemmas.FdeDamage
 import PyYetiVerif.Lemmas.FdePsd
+import PyYetiVerif.Lemmas.FdePsdOut
 import PyYetiVerif.Lemmas.FdeSrs
 import PyYetiVerif.Lemmas.FindapScale
 /-!
@@ -102,12 +103,15 @@ end field
 `exp`; `f·T0 > 0`, `≠ 1` for `pvelo`). -/
 theorem test_damage_positive (resp : Resp) (Q f T0 am g2m df4 df8 df12 : ℝ)
     (h : InDomain resp f T0) :
-    0 < (psdRow resp Q f T0 am g2m df4 df8 df12).dt4 ∧
-      0 < (psdRow resp Q f T0 am g2m df4 df8 df12).dt8 ∧
-      0 < (psdRow resp Q f T0 am g2m df4 df8 df12).dt12 :=
-  psdRow_dt_pos resp Q f T0 am g2m df4 df8 df12 h
+    0 < (psdOut resp Q f T0 am g2m df4 df8 df12).dt4 ∧
+      0 < (psdOut resp Q f T0 am g2m df4 df8 df12).dt8 ∧
+      0 < (psdOut resp Q f T0 am g2m df4 df8 df12).dt12 := by
+  obtain ⟨-, -, -, -, -, e4, e8, e12, -⟩ := psdOut_fields resp Q f T0 am g2m df4 df8 df12
+  rw [e4, e8, e12]
+  exact psdRow_dt_pos resp Q f T0 am g2m df4 df8 df12 h
 
-/-- with the `Dt_b` the code solves with: `Dt_b · var_test_b ^ (b/2) = Df_b` (both `resp`). -/
+/-- with the `Dt_b` and `sig2_b` the code SOLVES with (before the output scaling of the `pvelo`
+branch): `Dt_b · sig2_b ^ (b/2) = Df_b` (both `resp`). -/
 theorem test_variance_reproduces_internal (resp : Resp) (Q f T0 am g2m df4 df8 df12 : ℝ)
     (h : InDomain resp f T0) (h4 : 0 ≤ df4) (h8 : 0 ≤ df8) (h12 : 0 ≤ df12) :
     let p := psdRow resp Q f T0 am g2m df4 df8 df12
@@ -124,42 +128,65 @@ theorem test_variance_reproduces_internal (resp : Resp) (Q f T0 am g2m df4 df8 d
   · show (psdRow resp Q f T0 am g2m df4 df8 df12).dt12 * (psdRow resp Q f T0 am g2m df4 df8 df12).v12 ^ 6 = df12
     rw [v12, root6_pow _ (div_nonneg h12 d12.le)]; exact cancel _ _ d12
 
-/-- **`resp='absacce'`**: the returned tables satisfy the documented relation
+/-- helper: the rescaled `Dt_b` against the un-halved `sig2_b` — factor `1` (`absacce`) or
+`2 ^ (b/2)` (`pvelo`; this was the returned table before repair 4ed3a4d, finding F25). -/
+theorem row_relation_factor (resp : Resp) (Q f T0 am g2m df4 df8 df12 : ℝ)
+    (h : InDomain resp f T0) (h4 : 0 ≤ df4) (h8 : 0 ≤ df8) (h12 : 0 ≤ df12) :
+    (psdRow resp Q f T0 am g2m df4 df8 df12).dto4 * (psdRow resp Q f T0 am g2m df4 df8 df12).v4 ^ 2
+      = (match resp with | .absacce => 1 | .pvelo => 4) * df4 ∧
+    (psdRow resp Q f T0 am g2m df4 df8 df12).dto8 * (psdRow resp Q f T0 am g2m df4 df8 df12).v8 ^ 4
+      = (match resp with | .absacce => 1 | .pvelo => 16) * df8 ∧
+    (psdRow resp Q f T0 am g2m df4 df8 df12).dto12 * (psdRow resp Q f T0 am g2m df4 df8 df12).v12 ^ 6
+      = (match resp with | .absacce => 1 | .pvelo => 64) * df12 := by
+  obtain ⟨a, b, c⟩ := test_variance_reproduces_internal resp Q f T0 am g2m df4 df8 df12 h h4 h8 h12
+  obtain ⟨o4, o8, o12⟩ := psdRow_dto resp Q f T0 am g2m df4 df8 df12
+  cases resp <;> exact ⟨by rw [o4, mul_assoc, a], by rw [o8, mul_assoc, b], by rw [o12, mul_assoc, c]⟩
+
+/-- **both `resp` settings**: the returned tables satisfy the documented relation
 `di_test · var_test ^ (b/2) = di_sig`. -/
-theorem test_variance_reproduces (Q f T0 am g2m df4 df8 df12 : ℝ)
-    (h : 1 < f * T0) (h4 : 0 ≤ df4) (h8 : 0 ≤ df8) (h12 : 0 ≤ df12) :
-    let p := psdRow .absacce Q f T0 am g2m df4 df8 df12
+theorem test_variance_reproduces (resp : Resp) (Q f T0 am g2m df4 df8 df12 : ℝ)
+    (h : InDomain resp f T0) (h4 : 0 ≤ df4) (h8 : 0 ≤ df8) (h12 : 0 ≤ df12) :
+    let p := psdOut resp Q f T0 am g2m df4 df8 df12
     p.dto4 * p.v4 ^ 2 = df4 ∧ p.dto8 * p.v8 ^ 4 = df8 ∧ p.dto12 * p.v12 ^ 6 = df12 := by
   intro p
-  obtain ⟨a, b, c⟩ := test_variance_reproduces_internal .absacce Q f T0 am g2m df4 df8 df12 h h4 h8 h12
-  obtain ⟨o4, o8, o12⟩ := psdRow_dto .absacce Q f T0 am g2m df4 df8 df12
-  simp only [one_mul] at o4 o8 o12
-  exact ⟨by show p.dto4 * p.v4 ^ 2 = df4; rw [o4]; exact a,
-    by show p.dto8 * p.v8 ^ 4 = df8; rw [o8]; exact b,
-    by show p.dto12 * p.v12 ^ 6 = df12; rw [o12]; exact c⟩
+  obtain ⟨a, b, c⟩ := row_relation_factor resp Q f T0 am g2m df4 df8 df12 h h4 h8 h12
+  obtain ⟨-, -, -, -, -, -, -, -, d4, d8, d12⟩ := psdOut_fields resp Q f T0 am g2m df4 df8 df12
+  obtain ⟨e4, e8, e12⟩ := psdOut_v resp Q f T0 am g2m df4 df8 df12
+  show (psdOut resp Q f T0 am g2m df4 df8 df12).dto4 * (psdOut resp Q f T0 am g2m df4 df8 df12).v4 ^ 2 = df4 ∧
+    (psdOut resp Q f T0 am g2m df4 df8 df12).dto8 * (psdOut resp Q f T0 am g2m df4 df8 df12).v8 ^ 4 = df8 ∧
+    (psdOut resp Q f T0 am g2m df4 df8 df12).dto12 * (psdOut resp Q f T0 am g2m df4 df8 df12).v12 ^ 6 = df12
+  rw [d4, d8, d12, e4, e8, e12]
+  cases resp
+  · simp only [div_one, one_mul] at a b c ⊢
+    exact ⟨a, b, c⟩
+  · refine ⟨?_, ?_, ?_⟩
+    · have : ∀ x y : ℝ, x * (y / 2) ^ 2 = (x * y ^ 2) / 4 := by intro x y; ring
+      rw [this, a]; ring
+    · have : ∀ x y : ℝ, x * (y / 2) ^ 4 = (x * y ^ 4) / 16 := by intro x y; ring
+      rw [this, b]; ring
+    · have : ∀ x y : ℝ, x * (y / 2) ^ 6 = (x * y ^ 6) / 64 := by intro x y; ring
+      rw [this, c]; ring
 
-/-- **`resp='pvelo'`** (finding F25): the returned `di_test` was multiplied by `2 ^ (b/2)` after
-`var_test` had been computed, so the returned tables satisfy
-`di_test · var_test ^ (b/2) = 2 ^ (b/2) · di_sig`, not the documented relation. -/
-theorem test_variance_pvelo_factor (Q f T0 am g2m df4 df8 df12 : ℝ)
-    (h : InDomain .pvelo f T0) (h4 : 0 ≤ df4) (h8 : 0 ≤ df8) (h12 : 0 ≤ df12) :
-    let p := psdRow .pvelo Q f T0 am g2m df4 df8 df12
-    p.dto4 * p.v4 ^ 2 = 4 * df4 ∧ p.dto8 * p.v8 ^ 4 = 16 * df8 ∧ p.dto12 * p.v12 ^ 6 = 64 * df12 := by
-  intro p
-  obtain ⟨a, b, c⟩ := test_variance_reproduces_internal .pvelo Q f T0 am g2m df4 df8 df12 h h4 h8 h12
-  obtain ⟨o4, o8, o12⟩ := psdRow_dto .pvelo Q f T0 am g2m df4 df8 df12
-  exact ⟨by show p.dto4 * p.v4 ^ 2 = 4 * df4; rw [o4, mul_assoc, a],
-    by show p.dto8 * p.v8 ^ 4 = 16 * df8; rw [o8, mul_assoc, b],
-    by show p.dto12 * p.v12 ^ 6 = 64 * df12; rw [o12, mul_assoc, c]⟩
-
-/-- hence for `pvelo` the documented relation fails whenever the signal has any damage (F25) -/
-theorem test_variance_pvelo_counterexample (Q f T0 am g2m df4 df8 df12 : ℝ)
-    (h : InDomain .pvelo f T0) (h4 : 0 < df4) (h8 : 0 ≤ df8) (h12 : 0 ≤ df12) :
-    (psdRow .pvelo Q f T0 am g2m df4 df8 df12).dto4 * (psdRow .pvelo Q f T0 am g2m df4 df8 df12).v4 ^ 2
-      ≠ df4 := by
-  have := (test_variance_pvelo_factor Q f T0 am g2m df4 df8 df12 h h4.le h8 h12).1
-  rw [this]
-  linarith
+/-- the returned `var_test` is the documented variance of the SDOF response to the damage-based
+PSD: `σ²_absacce = (π/2)·f·Q·G_b`, `σ²_pvelo = Q·G_b/(8πf)`. -/
+theorem var_test_is_documented_variance (resp : Resp) (Q f T0 am g2m df4 df8 df12 : ℝ)
+    (hQ : 0 < Q) (hf : 0 < f) :
+    let p := psdOut resp Q f T0 am g2m df4 df8 df12
+    let k : ℝ := match resp with
+      | .absacce => (Real.pi / 2) * f * Q
+      | .pvelo => Q / (8 * Real.pi * f)
+    p.v4 = k * p.g4 ∧ p.v8 = k * p.g8 ∧ p.v12 = k * p.g12 := by
+  intro p k
+  have hpi := Real.pi_pos
+  cases resp with
+  | absacce =>
+      simp only [p, k, psdOut, psdRow, pi_def]
+      push_cast
+      refine ⟨?_, ?_, ?_⟩ <;> field_simp
+  | pvelo =>
+      simp only [p, k, psdOut, psdRow, pi_def]
+      push_cast
+      refine ⟨?_, ?_, ?_⟩ <;> field_simp <;> ring
 
 /-! ### monotonicity in the damage -/
 
@@ -167,9 +194,12 @@ theorem test_variance_pvelo_counterexample (Q f T0 am g2m df4 df8 df12 : ℝ)
 theorem G_b_monotone_in_damage (resp : Resp) (Q f T0 am g2m df4 df8 df12 df4' df8' df12' : ℝ)
     (h : InDomain resp f T0) (hQ : 0 < Q) (hf : 0 < f)
     (h4 : 0 ≤ df4) (h8 : 0 ≤ df8) (h12 : 0 ≤ df12) (m4 : df4 ≤ df4') (m8 : df8 ≤ df8') (m12 : df12 ≤ df12') :
-    (psdRow resp Q f T0 am g2m df4 df8 df12).g4 ≤ (psdRow resp Q f T0 am g2m df4' df8' df12').g4 ∧
-    (psdRow resp Q f T0 am g2m df4 df8 df12).g8 ≤ (psdRow resp Q f T0 am g2m df4' df8' df12').g8 ∧
-    (psdRow resp Q f T0 am g2m df4 df8 df12).g12 ≤ (psdRow resp Q f T0 am g2m df4' df8' df12').g12 := by
+    (psdOut resp Q f T0 am g2m df4 df8 df12).g4 ≤ (psdOut resp Q f T0 am g2m df4' df8' df12').g4 ∧
+    (psdOut resp Q f T0 am g2m df4 df8 df12).g8 ≤ (psdOut resp Q f T0 am g2m df4' df8' df12').g8 ∧
+    (psdOut resp Q f T0 am g2m df4 df8 df12).g12 ≤ (psdOut resp Q f T0 am g2m df4' df8' df12').g12 := by
+  obtain ⟨-, -, a4, a8, a12, -⟩ := psdOut_fields resp Q f T0 am g2m df4 df8 df12
+  obtain ⟨-, -, b4, b8, b12, -⟩ := psdOut_fields resp Q f T0 am g2m df4' df8' df12'
+  rw [a4, a8, a12, b4, b8, b12]
   obtain ⟨d4, d8, d12⟩ := psdRow_dt_pos resp Q f T0 am g2m df4 df8 df12 h
   obtain ⟨i4, i8, i12⟩ := psdRow_dt_indep resp Q f T0 am g2m df4 df8 df12 am g2m df4' df8' df12'
   obtain ⟨v4, v8, v12⟩ := psdRow_v resp Q f T0 am g2m df4 df8 df12
@@ -238,7 +268,7 @@ theorem psd_quadratic_scaling (resp : Resp) (c Q f T0 : ℝ) (hc : 0 < c) (hQ : 
       obtain ⟨_, d8, d12⟩ := psdRow_dt_pos resp Q f T0 r.amax (g2max r.amax r.levels r.count)
         r.df4 r.df8 r.df12 hdom
       simp only [Option.map_some, scaleTab, scaleRow, Option.some.injEq]
-      rw [g2max_scale c r.amax hc, psdRow_scale resp c Q f T0 _ _ _ _ _ hc
+      rw [g2max_scale c r.amax hc, psdOut_scale resp c Q f T0 _ _ _ _ _ hc
         (div_nonneg n8 d8.le) (div_nonneg n12 d12.le)]
 
 /-- the cycle table of the response history scaled by `c > 0` — `findap` (default variant, any
